@@ -117,6 +117,8 @@ def clauses(case, d):
                 bad.append("doers-list-not-added-and-not-removed-in-insertion-order")
                 ref[sid] = list(e[3])
             window = pos
+    if d["raised"].startswith("other:") or d["raised"] == "kbint":
+        bad.append("unexpected-exception-from-do:" + d["raised"].split(":")[-1])
     if list(d["doers"]) != ref[0]:
         bad.append("final-doers-list-differs")
     # a self-removed doer keeps running until it returns: it is never ceased unless the whole scheduler stops
